@@ -419,4 +419,3 @@ func routeFromJSONRaw(v any) rawRoute {
 	}
 	return r
 }
-
